@@ -35,8 +35,8 @@ def eval_views(repo, c):
     return f, dom, (eng, flow)
 
   for name in ('pair_distance', 'pair_score', 'score_pairs'):
-    f, dom, r = run(name, {'pairs': V(Tup('P', None), origin=('param',
-                                                              'pairs'))})
+    f, dom, r = run(name, {'pairs': V(Tup('P', [0, 1]),
+                                      origin=('param', 'pairs'))})
     if f is None:
       continue
     eng, flow = r
